@@ -468,8 +468,9 @@ func (s *clientSocket) emitBuffered() {
 			send := !hasAckFunc
 			sent, ok := ackIDs[*event.header.ID]
 			if ok && sent {
+				// Already acknowledged by the handler: go on with the next buffered event.
 				mu.Unlock()
-				return
+				continue
 			}
 			ackIDs[*event.header.ID] = true
 			mu.Unlock()
